@@ -34,6 +34,14 @@ pub struct OuterFrom {
 
 impl OuterFrom {
     pub fn start(di: &syn::DeriveInput) -> Result<Self> {
+        // The element-level traits describe a struct. An enum with variants is rejected variant
+        // by variant; an enum without any would otherwise reach code generation and panic there.
+        if let syn::Data::Enum(ref data) = di.data {
+            if data.variants.is_empty() {
+                return Err(Error::unsupported_shape("enum").with_span(&di.ident));
+            }
+        }
+
         Ok(OuterFrom {
             container: Core::start(di)?,
             attrs: Default::default(),
